@@ -152,6 +152,13 @@ func misuseCases(r *rec.Rec) {
 	run("max-int", add(math.MaxInt), add(0), send)
 	run("min-int-plus-one", add(math.MinInt+1), add(0))
 	run("neg-max-on-empty", add(-math.MaxInt32), add(0), send)
+	// deltas whose low 32 bits look harmless
+	run("pos-2pow32", add(1<<32), add(0), send)
+	run("pos-2pow32-plus", add(1<<32+3), add(0), send)
+	run("neg-2pow32", add(-(1 << 32)), add(0), send)
+	// an unbalanced deregistration stays reported although a later registration covers the deficit
+	run("deficit-covered", add(-1), add(1), add(0), send)
+	run("deficit-overcovered", add(-3), add(5), add(0), send)
 	// an unbalanced negative Add DURING a Send: Add(2); Send in flight; one receive; Add(-3); one more receive (the Send
 	// reaches its final check); afterwards Add(0) and Send - outcomes: Add(-3), the in-flight Send, Add(0), Send
 	{
